@@ -43,6 +43,7 @@ import (
 	"golang.org/x/text/language"
 	"seehuhn.de/go/postscript/funit"
 	"seehuhn.de/go/sfnt"
+	"seehuhn.de/go/sfnt/header"
 	"seehuhn.de/go/sfnt/cff"
 	"seehuhn.de/go/sfnt/cmap"
 	"seehuhn.de/go/sfnt/glyf"
@@ -454,7 +455,61 @@ func roundTrip(f *sfnt.Font) (f2 *sfnt.Font, err error) {
 	if _, err := f.Write(buf); err != nil {
 		return nil, err
 	}
-	return sfnt.Read(bytes.NewReader(buf.Bytes()))
+	file := buf.Bytes()
+	// every second file (chosen by its length) carries its GDEF table the way
+	// other tools write it: version 1.3 header, i.e. an item variation store
+	// offset behind the mark glyph sets offset - same content, same layout
+	if len(file)%2 == 0 {
+		if g := repackGdef13(file); g != nil {
+			file = g
+		}
+	}
+	return sfnt.Read(bytes.NewReader(file))
+}
+
+// repackGdef13 rewrites the container with the GDEF table (if it has the
+// 14-byte version 1.2 header) turned into a version 1.3 table; nil if there is
+// nothing to do.
+func repackGdef13(file []byte) []byte {
+	hdr, err := header.Read(bytes.NewReader(file))
+	if err != nil {
+		return nil
+	}
+	tables := map[string][]byte{}
+	for n := range hdr.Toc {
+		b, err := hdr.ReadTableBytes(bytes.NewReader(file), n)
+		if err != nil {
+			return nil
+		}
+		tables[n] = b
+	}
+	e := tables["GDEF"]
+	if len(e) < 14 || e[0] != 0 || e[1] != 1 || e[3] != 2 {
+		return nil
+	}
+	d := append([]byte(nil), e[:14]...)
+	d[3] = 3
+	for p := 4; p < 14; p += 2 {
+		if o := int(d[p])<<8 | int(d[p+1]); o != 0 {
+			o += 4
+			d[p], d[p+1] = byte(o>>8), byte(o)
+		}
+	}
+	storeAt := 0
+	if len(e)%4 == 0 {
+		storeAt = 18 + len(e) - 14
+	}
+	d = append(d, byte(storeAt>>24), byte(storeAt>>16), byte(storeAt>>8), byte(storeAt))
+	d = append(d, e[14:]...)
+	if storeAt != 0 {
+		d = append(d, 0, 1, 0, 0, 0, 8, 0, 0, 0, 0, 0, 0)
+	}
+	tables["GDEF"] = d
+	out := &bytes.Buffer{}
+	if _, err := header.Write(out, hdr.ScalerType, tables); err != nil {
+		return nil
+	}
+	return out.Bytes()
 }
 
 // ---------------------------------------------------------------- case lines
